@@ -33,8 +33,9 @@ class Query:
     """One satisfiability query.  Terms are DAG nodes; every non-leaf node becomes a
     define-fun so sharing is preserved."""
 
-    def __init__(self, label=""):
+    def __init__(self, label="", flatten_div=False):
         self.label = label
+        self.flatten_div = flatten_div   # q = a/b  ~>  fresh q with (b = 0 or q*b = a): equisatisfiable-or-weaker, sound for unsat
         self.memo = {}
         self.defs = []
         self.vars = {}          # name -> None
@@ -69,6 +70,14 @@ class Query:
                 s = f"({a[0]} {memo[a[1].id]})"
             elif o == "ite": s = f"(ite {memo[a[0].id]} {memo[a[1].id]} {memo[a[2].id]})"
             elif o == "not": s = f"(not {memo[a[0].id]})"
+            elif o == "/" and self.flatten_div and not sym.isc(a[1]):
+                qn = f"q{m.id}"
+                self.vars.setdefault(qn, None)
+                # guarded: where b = 0 the quotient is unconstrained (as in SMT-LIB's total
+                # division), so unsat of the flattened query implies unsat of the original
+                self.asserts.append(f"(or (= {memo[a[1].id]} 0.0) (= (* {qn} {memo[a[1].id]}) {memo[a[0].id]}))")
+                memo[m.id] = qn
+                continue
             else: s = f"({o} {memo[a[0].id]} {memo[a[1].id]})"
             if o not in ("c", "v", "b", "nonfinite"):
                 nm = f"t{m.id}"
